@@ -285,13 +285,13 @@ def d5(ctx, fx):
         return
     for (fn, b, n) in U.lookups:
         line = fn.term(b).get("line")
-        _, bad = success_edges(fn, n)
+        found, bad = success_edges(fn, n)
         if n.d["term"].get("name") == "index":
             ctx.finding("C12.D5", fn, "no-match", "a digest without a disclosure panics (Index) instead of being skipped", line=line)
             continue
         starts = [t for (_, t) in bad if fn.term(t)["k"] != "unreachable"]
         heads = set(h for (_, h) in cfg.back_edges(fn))
-        r = cfg.reachable(fn, starts, removed_blocks=heads)
+        r = cfg.reachable(fn, starts, removed_blocks=heads, removed_edges=found)
         errs = [e for e in cfg.exit_sites(fn) if e["kind"] in ("Err", "residual") and e["bb"] in r]
         sinks = [bb for (f, bb, _n, l) in U.obj_sinks if f is fn and bb in r]
         early = [e for e in cfg.exit_sites(fn) if e["kind"] not in ("Err", "residual", "None") and e["bb"] in r] if heads else []
